@@ -82,6 +82,9 @@ FunctorManager::Entry& FunctorManager::createOrReplace(const std::string& name, 
       /* back up current declaration */
       _journal.push_back(Change{id, FunctorPtr()});
       _journal.back().backed.swap(e.functor);
+      /* the cached run-time contexts were made for the replaced declaration:
+       * a call compiled ahead of the new FUNCTION statement must not reuse them */
+      e.clearCache();
       return e;
     }
     ++id;
